@@ -34,7 +34,9 @@ def main():
     if chk.args.replay:
         unitx.finish_replay(chk, unitx.replay_case(chk, "immfield", chk.args.replay))
     res = unitx.run(chk, "immfield")
-    unitx.record_violations(chk, res)
+    class_rank = ["locality", "encoding", "independence", "roundtrip", "decode", "advertised", "panic"]
+    unitx.record_violations(chk, res, order=lambda k: (
+        next((i for i, c in enumerate(class_rank) if f":{c}" in k), 9), k))
     cells = res["cells"]
     detail = res["cells_detail"]
     if not detail or res["evaluations"] < 1000:
